@@ -161,7 +161,8 @@ def grammar_script(draw, profile=None, max_ops=40, with_sig=False, sv=None):
             depth = need
         if cat == 'pickroll' and not sloppy:
             # give a usually-valid index
-            idx = draw(st.integers(0, max(0, depth - 2)))
+            # after the index is popped `depth` items remain: valid indices are 0..depth-1; draw up to depth (first invalid) with extra weight on the edges
+            idx = draw(st.one_of(st.integers(0, depth), st.sampled_from([0, max(0, depth - 1), depth])))
             out += push(R.num_enc(idx), 0)
         if cat == 'lock' and not sloppy:
             out += push(draw(st.sampled_from([R.num_enc(x) for x in (0, 1, 10, 499999999, 500000000, 500000001, 0x400000, 0x400001, 0xffff, 2 ** 31, 2 ** 32 - 1, -1)])), 0)
